@@ -5,6 +5,7 @@ package pgmem
 import (
 	"context"
 	"net"
+	"os"
 	"sort"
 	"strings"
 	"sync"
@@ -44,6 +45,10 @@ const (
 	CrashAfterCommit
 	FailStatement
 	DropConn
+	// TimeoutConn makes the client's pending read fail with a network timeout (as a TCP connection
+	// whose peer stopped answering does: pgconn.Timeout(err) is true for it), then ends the
+	// connection; the open transaction is rolled back. Only for in-process pipe connections.
+	TimeoutConn
 )
 
 type Fault struct {
@@ -55,6 +60,9 @@ type Fault struct {
 type FaultPlan struct{ Faults []Fault }
 
 type incarnation struct {
+	dials      int          // connections opened so far
+	dialFaults map[int]bool // dial numbers that fail with a network timeout
+	dialFired  int
 	name       string
 	roundTrips int
 	committing int
@@ -215,8 +223,21 @@ func (d *DB) PoolConfig(incarnation string) *pgxpool.Config {
 	cc.RuntimeParams = map[string]string{"application_name": incarnation}
 	cc.LookupFunc = func(ctx context.Context, host string) ([]string, error) { return []string{host}, nil }
 	cc.DialFunc = func(ctx context.Context, network, addr string) (net.Conn, error) {
+		d.mu.Lock()
+		in := d.inc(incarnation)
+		n := in.dials
+		in.dials++
+		fail := in.dialFaults[n]
+		if fail {
+			in.dialFired++
+		}
+		d.mu.Unlock()
+		if fail {
+			// what a TCP connect to an unresponsive host ends with (pgconn.Timeout(err) is true for it)
+			return nil, &net.OpError{Op: "dial", Net: network, Err: os.ErrDeadlineExceeded}
+		}
 		client, server := net.Pipe()
-		go serveConn(server, func(string) *DB { return d }, incarnation)
+		go serveConnPeer(server, client, func(string) *DB { return d }, incarnation)
 		return client, nil
 	}
 	cfg.LazyConnect = true
@@ -269,6 +290,30 @@ func (d *DB) SetFaultPlan(incarnation string, p *FaultPlan) {
 	d.mu.Lock()
 	defer d.mu.Unlock()
 	d.inc(incarnation).plan = p
+}
+
+// SetDialFaults makes the given connection attempts (0-based, counted per incarnation) of pools made
+// by PoolConfig fail with a network timeout.
+func (d *DB) SetDialFaults(incarnation string, at ...int) {
+	d.mu.Lock()
+	defer d.mu.Unlock()
+	in := d.inc(incarnation)
+	in.dialFaults = map[int]bool{}
+	for _, a := range at {
+		in.dialFaults[a] = true
+	}
+}
+
+// Dials returns how many connections the incarnation has tried to open and how many of these
+// attempts were failed by SetDialFaults.
+func (d *DB) Dials(incarnation string) (attempts, failed int) {
+	d.mu.Lock()
+	defer d.mu.Unlock()
+	in := d.incs[incarnation]
+	if in == nil {
+		return 0, 0
+	}
+	return in.dials, in.dialFired
 }
 
 func (d *DB) RoundTrips(incarnation string) (total, committing int) {
